@@ -85,8 +85,7 @@ class Body:
                 if rest:
                     ftys = tuple(vmap[str(v["val"])]["ftys"][0] if vmap[str(v["val"])]["ftys"] else "" for v in t["variants"] if v["name"] in rest)
                     out.append((t["otherwise"], ("variant", t.get("adt"), rest, on, ftys if len(rest) == 1 else ())))
-                else:
-                    out.append((t["otherwise"], ("unreachable-otherwise",)))
+                # every variant has its own target: the `otherwise` edge cannot be taken (rustc often points it at a block shared with a real arm)
                 return out
             if t.get("bool"):
                 for (v, tg) in t["targets"]:
@@ -147,6 +146,18 @@ class Body:
                 if "origin" in b:
                     self._loc[(b["origin"], b.get("orig_id"))] = b["id"]
         return self._loc.get((origin_name, orig_bb))
+
+    def locate_all(self, origin_name, orig_bb):
+        """every copy, in this (view) body, of block `orig_bb` of body `origin_name` (a callee spliced in at several call sites has several)"""
+        out = []
+        if origin_name == self.name and "origin" not in self.blocks.get(orig_bb, {"origin": 1}):
+            out.append(orig_bb)
+        if not hasattr(self, "_loc_all"):
+            self._loc_all = collections.defaultdict(list)
+            for b in self.j["blocks"]:
+                if "origin" in b:
+                    self._loc_all[(b["origin"], b.get("orig_id"))].append(b["id"])
+        return out + [x for x in self._loc_all.get((origin_name, orig_bb), ()) if x not in out]
 
     # ------------------------------------------------- P2: dominators (edge-split graph)
     def _build_dom(self):
